@@ -217,8 +217,15 @@ pub fn run(args: &[&str]) -> String {
       ["d", n] => (|| {
         let n: usize = n.parse().ok()?;
         let id = issued.get(n.wrapping_sub(1)).map(|x| x.0.clone()).unwrap_or_else(|| unknown.clone());
+        // is the id stored right now?
+        let stored = issued.get(n.wrapping_sub(1)).is_some() && rt.block_on(store.exists(&id)).unwrap_or(false);
         Some(match rt.block_on(store.delete(&id)) {
-          Ok(()) => "ok".to_string(),
+          Ok(()) => {
+            if !stored && fail.is_none() {
+              fail = Some(format!("absent-id-deletes:{} reported success for a key id that was {}", t, if n.wrapping_sub(1) < issued.len() { "already deleted" } else { "never handed out" }));
+            }
+            "ok".to_string()
+          }
           Err(e) => format!("err:{}", kerr(e.kind(), &e.to_string())),
         })
       })(),
